@@ -110,7 +110,16 @@ def strategy(tier):
     big = tier == "thorough"
     free = gen.freeform(max_targets=9 if big else 6).map(lambda d: {"kind": "free", "desc": d})
     parts = [free] * 6 + [_planted(tier)] * 5
-    return st.one_of(*parts)
+
+    @st.composite
+    def with_relwd(draw):
+        c = draw(st.one_of(*parts))
+        # some targets are given their working directory as a path relative to the invoking directory
+        if draw(st.sampled_from([False, False, True])):
+            c["relwd"] = [draw(st.booleans()) for _ in c["desc"]["targets"]]
+        return c
+
+    return with_relwd()
 
 
 def enumerate_cases(tier):
@@ -131,8 +140,13 @@ def run_case(case):
     defects = R.defects()
     viols, labels = [], {case["kind"]}
     raised = None
+    api_desc = desc
+    if any(case.get("relwd", [])):
+        flags = list(case["relwd"]) + [False] * len(desc["targets"])
+        api_desc = dict(desc, targets=[dict(t, relwd=bool(f)) for t, f in zip(desc["targets"], flags)])
+        labels.add("relative-working-dir")
     try:
-        api.build_graph(desc)
+        api.build_graph(api_desc)
     except Exception as exc:  # noqa: BLE001
         raised = api.exc_kind(exc)
         msg = f"{type(exc).__name__}: {exc}"
